@@ -35,7 +35,7 @@ def tokens(fmt):
             out.append([8, fmt[i:j]])
             i = j
         else:
-            if c.isalpha() or ord(c) > 127 or c in "\\":
+            if c.isalpha() or c.isdigit() or ord(c) > 127 or c in "\\":
                 raise Unsupported("letter literal")
             out.append([7, ord(c)])
             i += 1
